@@ -38,7 +38,18 @@ def expected(kind, sec, t):
     return "b58", 0xc4 if t else 0x05, h160(b"\x00\x20" + hashlib.sha256(ws).digest())
 
 
+def _zero_block_cases(rng, tier):
+    """hashes constructed so that the Base58Check text of the address has an interior, aligned block of the zero digit
+    '1' (common.zero_block_cases): a positional encoder that loses zero digits is wrong exactly there"""
+    for c in common.zero_block_cases(rng, 6 if tier == "quick" else 60):
+        if c[0] == "h160":
+            ver, h = c[1], c[2]
+            kind = "p2pkh" if ver in (0x00, 0x6f) else "p2sh"
+            yield "h_addr %s %s %s 0" % (kind, hx(h), "1" if ver in (0x6f, 0xc4) else "0"), "zero-digit-block-address"
+
+
 def cases(rng, tier):
+    yield from _zero_block_cases(rng, tier)
     ks = [1, 2, 3, N - 1, N - 2, 2 ** 255, 2 ** 64]
     for _ in range(25 if tier == "quick" else 2500):
         ks.append(rng.randrange(1, N))
@@ -124,6 +135,16 @@ def oracle(line, out):
     tok = line.split(" ")
     op = tok[0]
     v = ok_val(out)
+    if op == "h_addr" and tok[1] in ("p2pkh", "p2sh"):
+        h, t = unhex(tok[2]), tok[3] == "1"
+        ver = {("p2pkh", False): 0x00, ("p2pkh", True): 0x6f, ("p2sh", False): 0x05, ("p2sh", True): 0xc4}[(tok[1], t)]
+        if v is None:
+            return "no address for a 20-byte hash"
+        try:
+            pl = b58check_dec(unstr(v))
+        except ValueError:
+            return "%s address of a given hash is not valid Base58Check" % tok[1]
+        return None if pl == bytes([ver]) + h else "%s address does not decode to version || hash" % tok[1]
     if op == "addr":
         kind, sec, t = tok[1], unhex(tok[2]), tok[3] == "1"
         codec, tag, h = expected(kind, sec, t)
